@@ -63,7 +63,8 @@ class DstScenario:
         conf = self.conf if seq is None else rigs.pdu_conf(self.ids, self.mode, crc=self.crc, seq=seq)
         p = rigs.metadata(conf, self.S if size is None else size,
                           self.cktype if cktype is None else cktype,
-                          self.closure if closure is None else closure, self.src_name, self.dst_name)
+                          self.closure if closure is None else closure, self.src_name, self.dst_name,
+                          options=list(self.md_options) if getattr(self, "md_options", None) else None)
         return self._deliver(p, ("MD",) if seq is None else ("MD", "other-seq"))
 
     def fd(self, off, n, corrupt=False, seq=None, src_start=None, jname=None):
